@@ -374,6 +374,8 @@ def run(w: World, rep: Report):
              '[256,65535] with matching prefix widths and opcodes; everything else raises', floor=4)
     rep.rule('C11.R5', 'assemble / parse_next concatenate the parts of each statement in source order '
              '(extend/append only, index advanced by the reported amount)', floor=4)
+    rep.rule('C11.R6', 'macro and symbol tables are written only by define_macro; expansion substitutes into '
+             'copies, never in place', floor=2)
     ops = w.ops
     vm = set(ops.by_name)
     ga = w.repo.func('parsing', 'get_args')
@@ -517,6 +519,9 @@ def run(w: World, rep: Report):
 
     # ---- R5 concatenation order ------------------------------------------------------
     _concat_order(w, rep)
+
+    # ---- R6 macro / symbol tables are expanded from copies ---------------------------------
+    _macro_table(w, rep)
 
     rep.explanation = (
         'Decides the structural clauses of C11: the compiler dispatch covers every VM op exactly once '
@@ -747,6 +752,29 @@ def _concat_order(w: World, rep: Report):
                     and isinstance(n.func.value, ast.Name) and n.func.value.id in ('code', 'parts'):
                 ok, why = False, f'code list reordered by .{n.func.attr}()'
         rep.check('C11.R5', f'parsing.{fname}|source-order', ok, file=RELP, line=fi.node.lineno, why=why)
+
+
+def _macro_table(w: World, rep: Report):
+    """Only define_macro stores into the macro table (a whole new entry); nothing mutates an
+    entry, the caller's symbol list or a template in place - expansion works on copies.  An
+    in-place substitution makes a later use of the same macro / symbols emit the earlier values."""
+    from .effects import Effects
+    eff = Effects(w, modules=('parsing',))
+    n = 0
+    for key, fi in sorted(eff.funcs.items()):
+        if fi.module.name != 'parsing':
+            continue
+        for wr in eff.direct.get(key, []):
+            root = wr.path.split('.')[0].split('[')[0]
+            if root not in ('macros', 'symbols'):
+                continue
+            n += 1
+            ok = (fi.name == 'define_macro' and wr.path == 'macros' and wr.op == 'store')
+            rep.check('C11.R6', f'{key}|{wr.op}@{wr.path}', ok, line=wr.line, file=RELP,
+                      why='' if ok else f'{fi.name} mutates `{wr.path}` in place ({wr.op}): the stored macro / the '
+                      f'caller\'s symbols change, so a later expansion emits different instructions than written')
+    rep.check('C11.R6', 'parsing|macro-table-writers', n >= 1, file=RELP, trivial=True,
+              why='' if n >= 1 else 'define_macro no longer stores into the macro table', facts={'writes_seen': n})
 
 
 def _block_of(root, stmt):
